@@ -56,15 +56,19 @@ Section Probs.
     destruct (compute_weights_log_w x ll lp lq); simpl; congruence.
   Qed.
 
+  (* the vector handed to the generator: the max-shifted softmax, renormalised once more by its own sum (a no-op over the reals;
+     in floating point it removes the rounding of logsumexp — repair F33) *)
   Lemma resample_probs_spec : resample_probs x ll lp lq b0 b = softmax incr_lw.
   Proof.
-    assert (E : resample_probs x ll lp lq b0 b
-                = map exp (map (fun t => t - logsumexp (log_weights x ll lp lq b0 b)) (log_weights x ll lp lq b0 b)))
-      by reflexivity.
-    rewrite E, log_weights_fn, unnormalized_log_weights_spec by auto. fold incr_lw.
-    assert (Hn : map (fun t => t + (logsumexp incr_lw - ln (vlen x))) incr_lw <> []).
-    { pose proof incr_lw_ne. destruct incr_lw; simpl; congruence. }
-    rewrite (softmax_lse _ Hn). apply softmax_shift. apply incr_lw_ne.
+    set (w := map exp (map (fun t => t - logsumexp (log_weights x ll lp lq b0 b)) (log_weights x ll lp lq b0 b))).
+    assert (E : resample_probs x ll lp lq b0 b = map (fun t => t / vsum w) w) by reflexivity.
+    assert (Hw : w = softmax incr_lw).
+    { unfold w. rewrite log_weights_fn, unnormalized_log_weights_spec by auto. fold incr_lw.
+      assert (Hn : map (fun t => t + (logsumexp incr_lw - ln (vlen x))) incr_lw <> []).
+      { pose proof incr_lw_ne. destruct incr_lw; simpl; congruence. }
+      rewrite (softmax_lse _ Hn). apply softmax_shift. apply incr_lw_ne. }
+    rewrite E, Hw, (softmax_sum _ incr_lw_ne).
+    rewrite <- (map_id (softmax incr_lw)) at 2. apply map_ext. intros t. unfold Rdiv. rewrite Rinv_1. lra.
   Qed.
 
   Lemma resample_probs_distribution :
